@@ -105,6 +105,9 @@ pub enum Shape {
 #[derive(Clone, Debug, Serialize, Deserialize)]
 pub struct ParseCase {
     pub window_log: u8,
+    /// added to 2^window_log (modulo 2^window_log): matcher windows need not be powers of two
+    #[serde(default)]
+    pub window_extra: u32,
     pub blocks: Vec<Shape>,
     pub seed: u32,
     pub uncompressed_level: bool,
@@ -142,8 +145,8 @@ fn shape_strategy() -> impl Strategy<Value = Shape> {
 fn case_strategy(tier: Tier) -> impl Strategy<Value = Case> {
     let maxb = if tier == Tier::Quick { 6 } else { 40 };
     prop_oneof![
-        5 => (10u8..=23, prop::collection::vec(shape_strategy(), 1..=maxb), any::<u32>(), prop::bool::weighted(0.08))
-            .prop_map(|(window_log, blocks, seed, uncompressed_level)| Case::Generated(ParseCase { window_log, blocks, seed, uncompressed_level })),
+        5 => (10u8..=23, prop_oneof![2 => Just(0u32), 3 => any::<u32>()], prop::collection::vec(shape_strategy(), 1..=maxb), any::<u32>(), prop::bool::weighted(0.08))
+            .prop_map(|(window_log, window_extra, blocks, seed, uncompressed_level)| Case::Generated(ParseCase { window_log, window_extra, blocks, seed, uncompressed_level })),
         1 => (data_strategy(400_000), 1i32..=19, prop_oneof![Just(0u32), 10u32..=20]).prop_map(|(mut data, level, wlog)| {
             if data.len % (BLK as u32) < 16 {
                 data.len += 16;
@@ -155,7 +158,7 @@ fn case_strategy(tier: Tier) -> impl Strategy<Value = Case> {
 
 /// Render the generated parse: data and scripted sequences, valid by construction.
 pub fn render(pc: &ParseCase) -> Script {
-    let window = 1u64 << pc.window_log;
+    let window = (1u64 << pc.window_log) + (pc.window_extra as u64 % (1u64 << pc.window_log));
     let mut r = Rng(pc.seed as u64);
     let mut data: Vec<u8> = vec![];
     let mut blocks = vec![];
